@@ -1,0 +1,74 @@
+//go:build verif
+
+package document
+
+import (
+	"sync"
+	"sync/atomic"
+)
+
+// Verification hooks (build tag "verif"). Observation / yield points only;
+// nothing here changes what the library computes.
+
+var (
+	verifHits   sync.Map // name -> *int64
+	verifCallMu sync.RWMutex
+	verifCall   func(name string)
+)
+
+// verifPoint is a named observation/yield point.
+func verifPoint(name string) {
+	v, ok := verifHits.Load(name)
+	if !ok {
+		v, _ = verifHits.LoadOrStore(name, new(int64))
+	}
+	atomic.AddInt64(v.(*int64), 1)
+	verifCallMu.RLock()
+	cb := verifCall
+	verifCallMu.RUnlock()
+	if cb != nil {
+		cb(name)
+	}
+}
+
+// VerifSetCallback installs (or clears, with nil) the callback invoked at every verifPoint.
+func VerifSetCallback(cb func(name string)) {
+	verifCallMu.Lock()
+	verifCall = cb
+	verifCallMu.Unlock()
+}
+
+// VerifHits returns a copy of the per-point hit counters.
+func VerifHits() map[string]int64 {
+	out := map[string]int64{}
+	verifHits.Range(func(k, v interface{}) bool {
+		out[k.(string)] = atomic.LoadInt64(v.(*int64))
+		return true
+	})
+	return out
+}
+
+// VerifResetGlobals puts the process-wide numbering and note registries back
+// into their initial (unallocated) state. Must not be called while other
+// goroutines use the library.
+func VerifResetGlobals() {
+	globalNumberingManager = nil
+	globalFootnoteManager = nil
+}
+
+// VerifGlobals reports the sizes of the process-wide registries.
+func VerifGlobals() map[string]int {
+	out := map[string]int{}
+	if m := globalNumberingManager; m != nil {
+		out["abstractNums"] = len(m.abstractNums)
+		out["numInstances"] = len(m.numInstances)
+		out["nextNumID"] = m.nextNumID
+	}
+	if m := globalFootnoteManager; m != nil {
+		out["footnotes"] = len(m.footnotes)
+		out["endnotes"] = len(m.endnotes)
+		out["nextFootnoteID"] = m.nextFootnoteID
+		out["nextEndnoteID"] = m.nextEndnoteID
+	}
+	return out
+}
